@@ -14,6 +14,8 @@ ASSUME = ["1e-9 relative tolerance; division by zero compared as nan/inf classes
 
 
 def run(tier):
-    stages = [("MCStatsCheck", "MCStatsCheck_quick.cfg" if tier == "quick" else "MCStatsCheck_t1.cfg", "stats")]
+    stages = [("MCStatsCheck", "MCStatsCheck_quick.cfg" if tier == "quick" else "MCStatsCheck_t1.cfg", "stats"),
+              ("MCStatCli", "MCStatCli_quick.cfg", "stats")]
     return standard("C06", tier, "model_checking", RULE, ASSUME, stages,
-                    sabotage=[("MCStatsCheck", "MCStatsCheck_abPi.cfg", ["SpectrumMatchesGenotypes"])])
+                    sabotage=[("MCStatsCheck", "MCStatsCheck_abPi.cfg", ["SpectrumMatchesGenotypes"]),
+                              ("MCStatCli", "MCStatCli_abSort.cfg", ["RowMatchesRequest"])])
